@@ -433,6 +433,57 @@ func runC04(c *fw.Ctx) {
 			}
 		})
 	}
+	for ra := 2; ra <= 6; ra++ { // every pair of operand ranks 2..6 (batch dimensions of one operand missing in the other)
+		for rb := 2; rb <= 6; rb++ {
+			for rep := 0; rep < c.Pick(3, 12); rep++ {
+				ra, rb := ra, rb
+				c.Case(func(k *fw.K) {
+					long, short := ra-2, rb-2
+					if short > long {
+						long, short = short, long
+					}
+					batch := make([]int, long)
+					for i := range batch {
+						batch[i] = 1 + k.Rng.Intn(2)
+					}
+					ba, bb := batch[long-(ra-2):], batch[long-(rb-2):]
+					c04MatMul(k, ref.CopyInts(ba), ref.CopyInts(bb), 1+k.Rng.Intn(2), 1+k.Rng.Intn(3), 1+k.Rng.Intn(3), true)
+				})
+			}
+		}
+	}
+	for i := 0; i < c.Pick(300, 3000); i++ { // Dot of a tensor with ITSELF (one object), rows of exact zeros included
+		c.Case(func(k *fw.K) {
+			shape := RandShape(k.Rng, 1, 3, 4)
+			a := UniqueInts(k.Rng, shape)
+			last := shape[len(shape)-1]
+			for row := 0; row < len(a.Data)/last; row++ {
+				if k.Rng.Intn(3) == 0 {
+					for j := 0; j < last; j++ {
+						a.Data[row*last+j] = 0
+					}
+				}
+			}
+			in := ref.Instr{Op: "dot"}
+			k.Case = fcase{In: in, Ops: []*ref.T{a, a}, Tag: "x.Dot(x), one object"}
+			k.Key("dot-self/%s", shapeKey(shape))
+			k.Count("dot_self_cases", 1)
+			want, err := ref.Apply(in, []*ref.T{a, a})
+			if err != nil {
+				k.Failf("harness: %v", err)
+				return
+			}
+			ra := rt.MustLeaf(a, k.Rng.Intn(2) == 0)
+			var got tensor.Tensor
+			if p := call(func() { got, err = ra.Dot(ra) }); p != nil || err != nil {
+				k.Failf("x.Dot(x) on shape %v: panic=%v err=%v", shape, p, err)
+				return
+			}
+			if e := rt.Compare(got, want, 0, 0, nil, 0); e != nil {
+				k.Failf("x.Dot(x) (one object) on shape %v: %v", shape, e)
+			}
+		})
+	}
 	for i := 0; i < c.Pick(400, 4000); i++ { // a matrix times ITSELF (the same object, and an equal-valued other object), also inside a batch
 		c.Case(func(k *fw.K) {
 			n := 1 + k.Rng.Intn(5)
